@@ -14,6 +14,9 @@ import (
 	"sort"
 
 	tmed "github.com/tendermint/tendermint/crypto/ed25519"
+	tmsecp "github.com/tendermint/tendermint/crypto/secp256k1"
+
+	"github.com/pokt-network/posmint/crypto/keys/mintkey"
 
 	"github.com/pokt-network/posmint/crypto"
 	"github.com/pokt-network/posmint/crypto/keys"
@@ -236,6 +239,53 @@ func (e *exec) do(s *Step) {
 		e.model[ah] = &mKey{addr: kp.GetAddress(), pub: priv.PublicKey(), pass: s.Pass}
 		e.slots[s.Slot] = ah
 		st.C("keys_added", 1)
+	case "import_secp":
+		// a secp256k1 key can only come in as an armor (ImportPrivKey): armored under "arm", stored under s.Pass
+		var b [16]byte
+		binary.BigEndian.PutUint64(b[:], e.seed)
+		binary.BigEndian.PutUint64(b[8:], uint64(1000+s.Key))
+		h := sha256.Sum256(b[:])
+		priv := crypto.Secp256k1PrivateKey(tmsecp.GenPrivKeySecp256k1(h[:]))
+		ah := hex.EncodeToString(priv.PublicKey().Address())
+		_, exists := e.model[ah]
+		armor, aerr := mintkey.EncryptArmorPrivKey(priv, "arm", "")
+		if aerr != nil {
+			e.viol("import-failed", map[string]string{"op": s.Op}, "cannot armor a secp256k1 key: %v", aerr)
+			return
+		}
+		var kp keys.KeyPair
+		var err error
+		crashed, pan := e.guarded(func() { kp, err = e.kb.ImportPrivKey(armor, "arm", s.Pass) })
+		if pan != nil {
+			e.viol("panic", map[string]string{"op": s.Op}, "ImportPrivKey panicked: %v", pan)
+			return
+		}
+		e.log = append(e.log, fmt.Sprintf("import_secp k%d err=%v crashed=%v", s.Key, err != nil, crashed))
+		if crashed {
+			unchanged("a crash before the write")
+			return
+		}
+		if exists {
+			if err == nil {
+				e.viol("import-overwrote-existing", map[string]string{"op": s.Op}, "importing a secp256k1 key whose address %s is already stored succeeded", ah)
+				e.model[ah].pass = s.Pass
+			} else {
+				unchanged("an existing address")
+				st.Probe("import_of_existing_address_refused")
+			}
+			return
+		}
+		if err != nil {
+			e.viol("import-failed", map[string]string{"op": s.Op}, "importing a fresh secp256k1 key failed: %v", err)
+			return
+		}
+		if hex.EncodeToString(kp.GetAddress()) != ah {
+			e.viol("import-address", map[string]string{"op": s.Op}, "imported key reports address %X, the key's address is %s", kp.GetAddress(), ah)
+		}
+		e.model[ah] = &mKey{addr: kp.GetAddress(), pub: priv.PublicKey(), pass: s.Pass}
+		e.slots[s.Slot] = ah
+		st.C("keys_added", 1)
+		st.Probe("secp256k1_key_stored")
 	case "update":
 		addr, mk := e.addrOf(s.Slot)
 		var err error
@@ -329,6 +379,14 @@ func (e *exec) do(s *Step) {
 		}
 		if len(sig) > 1 && mk.pub.VerifyBytes(msg, sig[:len(sig)-1]) {
 			e.viol("signature-binds-message", map[string]string{"what": "truncated"}, "a truncated signature verifies")
+		}
+		// messages related by hashing: a signature over H(m) is no signature over m, nor the other way round
+		hm := sha256.Sum256(msg)
+		if mk.pub.VerifyBytes(hm[:], sig) {
+			e.viol("signature-binds-message", map[string]string{"what": "hash-of-message"}, "a signature over m verifies for SHA-256(m)")
+		}
+		if sigH, _, herr := e.kb.Sign(addr, s.Pass, hm[:]); herr == nil && mk.pub.VerifyBytes(msg, sigH) {
+			e.viol("signature-binds-message", map[string]string{"what": "preimage-of-message"}, "a signature over SHA-256(m) verifies for m")
 		}
 		st.C("signatures_checked", 1)
 	case "export_armor":
